@@ -98,6 +98,14 @@ VARIANTS_JS = [
     ('js-on-top-of-C11-h2', 'EQ', 'C11-h2', []),
     ('js-on-top-of-C18-h2', 'EQ', 'C18-h2', []),
     ('js-on-top-of-C20-h2', 'EQ', 'C20-h2', []),
+    # wave h3/h4: a private mutating helper whose result is indexed in place (C11-h4); sticky patterns + shared global patterns
+    # with `lastIndex = 0` before the exec loop (C18-h4)
+    ('js-on-top-of-C11-h4', 'EQ', 'C11-h4', []),
+    ('js-on-top-of-C18-h4', 'EQ', 'C18-h4', []),
+    ('js-on-top-of-C10-h4', 'EQ', 'C10-h4', []),
+    # behaviour-preserving per call (every exec loop runs to completion and leaves lastIndex = 0), but the object is shared and
+    # the translator cannot know who else uses it: refused by the freshness rule - an alarm that is accepted
+    ('js-C18-h4-without-reset', 'EQ', 'C18-h4', [("    rgxp.lastIndex = 0; // Start from", "    // Start from")]),
     # ---- behaviour-changing
     ('js-D-relative-match-end', 'DIFF', None, [("if (cidx + match_end == src.length ||", "if (match_end == src.length ||")]),
     ('js-D-startswith-relative', 'DIFF', None, [("src.startsWith(dlm, cidx + match_end)) {", "src.startsWith(dlm, match_end)) {")]),
@@ -109,6 +117,10 @@ VARIANTS_JS = [
     ('js-D-sticky-wrong-lastindex', 'DIFF', 'C10-h2', [("    rgx.lastIndex = cidx; //", "    rgx.lastIndex = 0; //")]),
     ('js-D-inlined-without-continue', 'DIFF', 'C11-h2', [("                cidx = match_end + dlm.length;\n                continue;\n", "                cidx = match_end + dlm.length;\n")]),
     ('js-D-helper-does-not-escape', 'DIFF', 'C18-h2', [("    const escaped = src.replace(/\"/g, '\"\"');\n    return `\"${escaped}\"`;", "    const escaped = src;\n    return `\"${escaped}\"`;")]),
+    ('js-D-C11-h4-guard-or', 'DIFF', 'C11-h4', [("    if (match_end != src.length && !src.startsWith(dlm, match_end)) {", "    if (match_end != src.length || !src.startsWith(dlm, match_end)) {")]),
+    ('js-D-C11-h4-helper-length-one', 'DIFF', 'C11-h4', [("    return [field_end + dlm.length, field.indexOf('\"') != -1];", "    return [field_end + 1, field.indexOf('\"') != -1];")]),
+    ('js-D-C18-h4-lastindex-one', 'DIFF', 'C18-h4', [("    rgxp.lastIndex = 0; // Start from", "    rgxp.lastIndex = 1; // Start from")]),
+    ('js-D-C18-h4-sticky-off-by-one', 'DIFF', 'C18-h4', [("    rgx.lastIndex = cidx;\n", "    rgx.lastIndex = cidx + 1;\n")]),
     ('js-D-rfc-no-lf', 'DIFF', None, [(" || src.indexOf('\\n') != -1 || src.indexOf('\\r') != -1) {", " || src.indexOf('\\r') != -1) {")]),
 ]
 
